@@ -67,6 +67,7 @@ func (c *Ctx) diffRule(fname string) {
 		}
 		return "", ""
 	}
+	under := "" // condition the statements being scanned run under ("" = unconditional)
 	var scan func(stmts []ast.Stmt)
 	scan = func(stmts []ast.Stmt) {
 		for _, s := range stmts {
@@ -99,6 +100,9 @@ func (c *Ctx) diffRule(fname string) {
 						sz := get(field, s.Pos())
 						if sz.helper != "" {
 							sz.wrong = append(sz.wrong, "field is diffed by more than one helper call")
+						}
+						if under != "" {
+							sz.wrong = append(sz.wrong, "the field is compared only under `"+under+"`: for the other pairs of nodes a difference in it is not reported")
 						}
 						sz.helper = hn
 						sz.argsOK = argsOK
@@ -199,7 +203,10 @@ func (c *Ctx) diffRule(fname string) {
 						continue
 					}
 				}
+				saved := under
+				under = types.ExprString(s.Cond)
 				scan(s.Body.List)
+				under = saved
 			case *ast.BlockStmt:
 				scan(s.List)
 			}
